@@ -38,6 +38,13 @@ def r_cli_flags(repo, rep, R='R16.3'):
         ok = bool(os_) and {o.lang for o in os_} >= set(langs) and all(o.kw.get('type') == ('name', typ) and 'dest' not in o.kw for o in os_)
         rep.check(ok, R, w, 'cli:' + flag, '%s is a %s option stored under its own name (for %s)' % (flag, typ, '/'.join(langs)),
                   '%s is declared as %s' % (flag, desc(os_)))
+    # an option declared on the top-level parser AND on a sub-command: argparse copies the sub-command's namespace, defaults
+    # included, over what the top-level parser read, so `depccg --pruning-size 1 en` silently runs with the default
+    twice = sorted(f_ for f_, os_ in flags.items() if any(o.lang is None for o in os_) and any(o.lang in langs for o in os_)
+                   and f_ in ('--pruning-size', '--beta', '--disable-beta', '--nbest', '--unary-penalty', '--max-length', '--max-step'))
+    rep.check(not twice, R, w, 'cli:declared-once', 'each search option is declared at one level of the command line',
+              'the option(s) %s are declared on the top-level parser and again on the language sub-commands: the value given in front of the sub-command is accepted and then '
+              'overwritten by the sub-command\'s default -- the search runs with the default beam although another one was asked for' % twice)
     opts = {'disable_beta', 'beta', 'pruning_size'}
     for rel in ('depccg/argparse.py', 'depccg/__main__.py'):
         m_ = repo.module(rel)
